@@ -305,7 +305,7 @@ def finish(a, pid, mod, m, inconclusive, t0, builddir, extra_cov=None):
         newviol += 1
         rdir.mkdir(parents=True, exist_ok=True)
         rp = rdir / (safe(key) + ".json")
-        f0 = v["first"][0]
+        f0 = v["first"][0] if v["first"] else {"pred": "?", "case": None, "detail": None}
         rp.write_text(json.dumps({"property": pid, "key": key, "pred": f0["pred"],
                                   "count": v["count"], "seed": a.seed,
                                   "tier": a.tier,
